@@ -172,4 +172,43 @@ PROPS['C24'] = {
     'technique': 'Lean 4 proof by cases over tables regenerated from the source (translator) + bit-pattern lemmas + differential correspondence check',
 }
 
+SEM_RULE = ("generated terminating programs of the core fragment (0-2 i32 params, 0-2 results, globals, one memory, three callees incl. one with side effects; statements: "
+            "log, local/global set, store, drop, block, counted loop, if/else, br, br_if, br_table, return, unreachable; expressions incl. value-producing block / if, loads, "
+            "division that may trap, calls; nesting <= 3) x injection plans of 1-6 steps over before / after / semantic_after / block_entry / block_exit / function entry / exit "
+            "with reporting probes `i32.const id; call $log`, through module iterator, component iterator or function modifier x 3 argument vectors; the decoded output of the crate "
+            "is compared with the tree model's lowering (when in its scope; the flat model's otherwise) and executed by the Lean interpreter next to the monitored original; "
+            "distinct by case line; non-trivial when the plan is non-empty")
+SEM_TRUST = COMMON_TRUST + [
+    'the structured semantics Orca.Sem (run / runOne: i32 fragment, big-step with fuel) as a reading of the WebAssembly specification, and its monitor switch as the reading of C16-C20 (the monitor rules are restated as theorems c1x_monitor_* in each property file so that they can be audited against the property text)',
+    'execution is by the compiled Lean interpreter (no wasm engine exists in the sandbox); validity of instrumented modules is wasmparser\'s verdict per generated case, not a theorem',
+    'modelled, not verified: the token <-> instruction parser of the driver (parseOp / kindOfTok), the placement equivalence tree-model = code outside the tree scope (before-code on instruction 0 together with function-level probes; >= 3 flagged bodies at one end; branches to the function label or to loops) where the flat model M3 (tied to the code by the lower family) is printed instead',
+]
+def sem_prop(title, files, level_text, technique):
+    return {
+        'title': title, 'props_files': files,
+        'families': [{'name': 'sem', 'quick_n': 2500, 'thorough_n': 250000}],
+        'rule': SEM_RULE, 'trusted': SEM_TRUST,
+        'assumptions': ['terminating executions only (the theorems quantify over runs that finish with some fuel)', 'activations start with an empty operand stack'],
+        'design_ref': 'DESIGN.md section 6', 'level_text': level_text, 'technique': technique,
+    }
+PROPS['C16'] = sem_prop('Instrumentation with neutral probes preserves program behaviour', ['Orca/Props/C16.lean'],
+    'Lean 4 theorems over the structured semantics: (1) simulation - the lowered function run with the monitor off yields exactly the monitored outcome (results, trap, state, trace) for every program without '
+    'semantic-after on branches, every state, every terminating run (induction on fuel); (2) monitor erasure - with or without monitor the outcome is the same up to the trace, for all programs; hence the '
+    'instrumented function behaves as the original. Validity of the output is decided per case by wasmparser (known finding F27). Tied to the code by executing the decoded output of the crate.',
+    'Lean 4 proof (simulation by induction on fuel + monitor erasure) + differential correspondence and execution in the Lean interpreter')
+PROPS['C17'] = sem_prop('Function entry/exit probes fire once per call on every normal path', ['Orca/Props/C17.lean'],
+    'Lean 4 theorem lowerF_sim: entry probes, wrapper block, exit probes and the copies in front of return / unreachable reproduce the monitored activation exactly (fall-through, return, branch to the function label from any depth, unreachable), results unchanged; '
+    'for all bodies without semantic-after on branches. Tied to the code by the sem family.',
+    'Lean 4 proof (function-level simulation) + differential correspondence and execution in the Lean interpreter')
+PROPS['C18'] = sem_prop('Block entry probes fire on every entry into the block', ['Orca/Props/C18.lean'],
+    'Lean 4 theorem: the lowered program reproduces the monitored trace, in which entry probes fire at every entry of a block / loop iteration / if arm and nowhere else; all programs without semantic-after on branches.',
+    'Lean 4 proof (simulation by induction on fuel) + differential correspondence and execution in the Lean interpreter')
+PROPS['C19'] = sem_prop('Block exit probes fire when the block or arm falls through', ['Orca/Props/C19.lean'],
+    'Lean 4 theorem: the lowered program reproduces the monitored trace, in which exit probes fire exactly when the body / arm falls through; after the repair of F13 the placement for `if` is the arm\'s own else/end for arbitrarily nested arms.',
+    'Lean 4 proof (simulation by induction on fuel) + differential correspondence and execution in the Lean interpreter')
+PROPS['C20'] = sem_prop('Semantic-after probes fire exactly once after the instruction', ['Orca/Props/C20.lean'],
+    'PARTIAL. Lean 4: full theorem for semantic-after on block / if / else (fall-through and branch to the label). For branches the code\'s flag scheme is modelled; the statement is false of the code in two recorded ways, each decided in the kernel '
+    'on a concrete program and reproduced on the crate by the sem family: F14 (flag never cleared) and F15 (function label). Single annotated branches into a block are decided on instances; the general partial theorem for branches is not proved.',
+    'Lean 4 proof (constructs) + kernel-decided counterexamples (branches) + differential correspondence and execution in the Lean interpreter')
+
 ALL_IDS = ['C%02d' % i for i in range(1, 31)]
